@@ -156,7 +156,14 @@ def run_clock(case):
     if case["target"] == "timeline":
         log = []
         dev = Rec(None, 0, log)
-        tl = iso.Timeline(case["tempo"], output_device=dev, ticks_per_beat=case["tpb"])
+        rep = case.get("replace")
+        if rep:
+            # the timeline is built on an internal clock of ANOTHER rate; then its clock source is replaced by a Clock made
+            # without a target (the documented way), which is the one that runs
+            tl = iso.Timeline(rep["old_tempo"], output_device=dev, ticks_per_beat=rep["old_tpb"])
+            tl.clock_source = iso.Clock(tempo=case["tempo"], ticks_per_beat=case["tpb"])
+        else:
+            tl = iso.Timeline(case["tempo"], output_device=dev, ticks_per_beat=case["tpb"])
         clock = tl.clock_source
         def on_tick():
             i = state["n"]; state["n"] += 1
@@ -166,6 +173,22 @@ def run_clock(case):
         dev.on_tick = on_tick
         runner = tl.run
         set_tempo = lambda t: setattr(tl, "tempo", t)
+    elif case["target"] == "midi_late":
+        # a real MidiOutputDevice opened WITHOUT clock output is the clock's target; clock output is switched on afterwards
+        dev = MidiOutputDevice()
+        class CountPort:
+            name = "verif-fake-out"
+            def send(self, msg):
+                if msg.type == "clock":
+                    i = state["n"]; state["n"] += 1
+                    t = cb.get(str(i))
+                    if t is not None:
+                        clock.tempo = t
+        dev.midi = CountPort()
+        clock = iso.Clock(dev, case["tempo"], case["tpb"])
+        dev.send_clock = True
+        runner = clock.run
+        set_tempo = lambda t: setattr(clock, "tempo", t)
     else:
         class Target:
             ticks_per_beat = case.get("target_rate")
@@ -499,6 +522,102 @@ def run_midi_wired(case):
     return {"obs": obs, "code": code, "ticks_per_beat": tl.ticks_per_beat, "exc": exc, "problems": problems}
 
 
+# ---- 6. a timeline that is re-configured after construction ---------------------------------------------------
+class RecMidi(MidiOutputDevice):
+    """a real MidiOutputDevice on a fake port; every tick() call is logged, and every 'clock' message on the port"""
+    def __init__(self, index, log, send_clock):
+        super().__init__(send_clock=send_clock)
+        self.index, self.log = index, log
+        outer = self
+        class Port:
+            name = "verif-fake-out"
+            def send(self, msg):
+                if msg.type == "clock":
+                    outer.log.append(["p", outer.index])
+        self.midi = Port()
+    def tick(self):
+        self.log.append(["t", self.index])
+        super().tick()
+
+
+class RecBoth(Rec):
+    def tick(self):
+        self.log.append(["t", self.index])
+        self.log.append(["p", self.index])
+
+
+def reconfig_device(spec, index, log):
+    if spec == "midi_on":
+        return RecMidi(index, log, True)
+    if spec == "midi_off":
+        return RecMidi(index, log, False)
+    return RecBoth(spec, index, log)
+
+
+def enc_obs(log):
+    """base-8 digits 2 * device + pulse + 1, one per device.tick() call in call order"""
+    v, k = 0, 0
+    while k < len(log):
+        kind, i = log[k]
+        pulse = 1 if k + 1 < len(log) and log[k + 1] == ["p", i] else 0
+        if kind != "t":
+            return "stray pulse"
+        v = v * 8 + (2 * i + pulse + 1)
+        k += 1 + pulse
+    return v
+
+
+def run_reconfig(case):
+    log = []
+    devs = [reconfig_device(s, i, log) for i, s in enumerate(case["devs"])]
+    if case.get("clock") == "internal":
+        tl = iso.Timeline(120, output_device=devs[0], ticks_per_beat=case["rate"])
+    else:
+        tl = iso.Timeline(output_device=devs[0], clock_source=iso.DummyClock(ticks_per_beat=case["rate"]))
+    for d in devs[1:]:
+        tl.add_output_device(d)
+    per_tick, code, rates = [], 0, []
+    for ev in case["events"]:
+        k = ev[0]
+        if k == "tick":
+            for _ in range(ev[1]):
+                del log[:]
+                try:
+                    tl.tick()
+                except Exception as e:
+                    code = err_code(e)
+                per_tick.append(enc_obs(log))
+                if code:
+                    break
+            if code:
+                break
+        elif k == "replace_clock":
+            kind, n = ev[1], ev[2]
+            if kind == "clock":
+                tl.clock_source = iso.Clock(tempo=ev[3] if len(ev) > 3 else 120, ticks_per_beat=n)
+            elif kind == "dummy":
+                tl.clock_source = iso.DummyClock(ticks_per_beat=n)
+            else:
+                tl.clock_source = MidiInputDevice()
+            rates.append(tl.ticks_per_beat)
+        elif k == "set_tpb":
+            tl.ticks_per_beat = ev[1]
+            rates.append(tl.ticks_per_beat)
+        elif k == "add_device":
+            d = reconfig_device(ev[1], len(tl.output_devices), log)
+            tl.add_output_device(d)
+        elif k == "set_device":
+            tl.output_device = reconfig_device(ev[1], 0, log)
+        elif k == "send_clock":
+            tl.output_devices[ev[1]].send_clock = bool(ev[2])
+    if not isinstance(code, int):
+        return {"error": code}
+    bad = [x for x in per_tick if not isinstance(x, int)]
+    if bad:
+        return {"error": str(bad[0])}
+    return {"len": len(per_tick), "sparse": sparse(per_tick, case["dflt"]), "code": code, "rates": rates}
+
+
 def guarded(f, case):
     try:
         return f(case)
@@ -509,10 +628,13 @@ def guarded(f, case):
 def main():
     req = json.load(sys.stdin)
     out = {}
+    real_stdout = sys.stdout
+    sys.stdout = sys.stderr          # Timeline.run prints when its clock dies; keep that out of the JSON stream
     for key, f in (("mult", run_mult), ("timeline", run_timeline), ("clock", run_clock),
-                   ("midi_in", run_midi_in), ("midi_tl", run_midi_tl), ("midi_wired", run_midi_wired)):
+                   ("midi_in", run_midi_in), ("midi_tl", run_midi_tl), ("midi_wired", run_midi_wired), ("reconfig", run_reconfig)):
         if key in req:
             out[key] = [guarded(f, c) for c in req[key]]
+    sys.stdout = real_stdout
     json.dump(out, sys.stdout)
 
 main()
